@@ -176,6 +176,20 @@ def trim_gocache(limit_mb=12000):
             run(["go", "clean", "-cache"], env=GOENV, timeout=1800)
     except Exception:
         pass
+    sweep_stale_tmp()
+
+def sweep_stale_tmp(max_age_s=3 * 3600):
+    """Scratch directories of OUR harnesses that a killed run (watchdog, a seeded change that wedges the process)
+    left behind in the system temp directory: removed once they are hours old (a live run's are younger)."""
+    import glob, shutil, tempfile
+    now = time.time()
+    for pat in ("verif-c11-*", "verif-c19-*", "verif-gen-*", "verif-copy-*", "verif-c08-*", "verif-c02-*"):
+        for d in glob.glob(os.path.join(tempfile.gettempdir(), pat)):
+            try:
+                if os.path.isdir(d) and now - os.path.getmtime(d) > max_age_s:
+                    shutil.rmtree(d, ignore_errors=True)
+            except OSError:
+                pass
 
 def generate_params():
     """Regenerate lean/FV/Generated/Params.lean from /repo's working tree (go/ast extractor)."""
